@@ -11,10 +11,19 @@ import (
 
 func init() { checks["C02"] = c02 }
 
-var c02Preds = []string{"a", "b", "c", "d"}
+// the last name holds its own prefix followed by a dot ("...ex.html"): a compact IRI is cut at its FIRST dot
+var c02Preds = []string{"a", "b", "c", "d", "index.html"}
 var c02Lits = []string{"s1", "s2", "s3"}
 
 func genPath(r *rand.Rand, depth int, allowType bool) lib.Path {
+	if depth == 3 && r.Intn(12) == 0 {
+		// a branch of 10-14 steps (over two predicates, so that cyclic graphs give it values)
+		items := make([]lib.Path, 10+r.Intn(5))
+		for i := range items {
+			items[i] = lib.Pred{Prefix: "ex", Local: c02Preds[r.Intn(2)], Inverse: r.Intn(4) == 0}
+		}
+		return lib.Seq{Items: items}
+	}
 	if depth <= 0 || r.Intn(3) == 0 {
 		if allowType && r.Intn(8) == 0 {
 			return lib.TypeStep{}
